@@ -515,6 +515,11 @@ def runtime_bases():
         ("module", '{% import "lib" as lib %}', "lib", ""),
         ("module.macro", '{% from "lib" import lm %}', "lm", ""),
         ("undefined", "", "zz_undefined_variable", ""),
+        ("undefined-attr", "", "ctxfn.zz_nope", ""),
+        ("undefined-item", "", '{"a": 1}["zz"]', ""),
+        ("undefined-unsafe", "", "ctxfn.__globals__", ""),
+        ("undefined-loop-else", "{% for zz_i in [] %}{% endfor %}", "zz_i", ""),
+        ("undefined-macro-arg", "{% macro m(zz_a) %}", "zz_a", "{% endmacro %}{{ m() }}"),
         ("context-fn", "", "ctxfn", ""),
     ]
     return B
@@ -748,10 +753,14 @@ def check_struct(p, asy, src, compiled, tag):
 #: bases for which "forbidden == missing" is not a valid relation: a missing attribute of the class `dict`
 #: falls back to dict["name"] which *succeeds* (types.GenericAlias), and an attribute of an undefined
 #: value raises UndefinedError while its dunder attributes are (unsafe) undefined values.
-NO_RELATION = ("runtime:dict", "runtime:undefined")
+NO_RELATION = ("runtime:dict", "runtime:undefined", "runtime:undefined-attr", "runtime:undefined-item",
+               "runtime:undefined-unsafe", "runtime:undefined-loop-else", "runtime:undefined-macro-arg")
+#: private names of jinja's own Undefined objects (receivers of the "undefined-*" bases)
+UNDEFINED_NAMES = ["_undefined_obj", "_undefined_name", "_undefined_hint", "_undefined_exception", "_undefined_message",
+                   "_fail_with_undefined_error", "__reduce_ex__", "__slots__", "__html__", "__getattr__", "__eq__"]
 
 
-def judge(p, cfg, rid, is_fmt, src, kind, A, extra, Fs, res, rec, touched, ctl_res, liveobj=None):
+def judge(p, cfg, rid, is_fmt, src, kind, A, extra, Fs, res, rec, touched, ctl_res, liveobj=None, script=None):
     """Oracle for one forbidden access.  Returns the outcome signature."""
     bad = []
     pred = is_forbidden_pred(Fs)
@@ -782,7 +791,7 @@ def judge(p, cfg, rid, is_fmt, src, kind, A, extra, Fs, res, rec, touched, ctl_r
         p.violation(f"C17/{k}/{rid}", {
             "msg": f"[{cfg}] {kind}.{A} via {rid}: {why}; template {src!r} -> {res!r}",
             "config": cfg, "route": rid, "object": kind, "name": A, "template": src,
-            "script": script_for(cfg, src, kind, A, extra),
+            "script": (script or "") + script_for(cfg, src, kind, A, extra),
         })
     return ("exc", res[1]) if res[0] == "exc" else ("ok",)
 
@@ -876,7 +885,7 @@ def rt_shard(arg):
 
             csrc = build(MISSING_NAME)
             ctl_once = run_once(cfg, csrc, {})[0]
-            for A in NAMES:
+            for A in NAMES + (UNDEFINED_NAMES if bid.startswith("undefined") else []):
                 p.evals += 1
                 src = build(A)
                 # no compile cache here: constant folding evaluates attribute access, filters and finalize
@@ -894,6 +903,81 @@ def rt_shard(arg):
                                   "outcome": list(sig)}, cap=1)
                 else:
                     p.count("attribute_absent_on_object")
+    return p
+
+
+# ------------------------------------------------------------------ histories: a trusted environment first
+
+HISTORY_KINDS = ["probe", "generator", "dictsub"]
+HISTORY_KINDS_THOROUGH = ["probe", "class", "generator", "frame", "dictsub", "function"]
+
+
+def make_plain_env(cfg):
+    """The application's own, unsandboxed Environment: it may read private attributes."""
+    import jinja2
+
+    asy, undef, esc = CONFIGS[cfg][:3]
+    rec = Rec()
+    env = jinja2.Environment(enable_async=asy, undefined=getattr(jinja2, undef), autoescape=esc,
+                             loader=jinja2.DictLoader({"lib": LIB_SOURCE}), cache_size=0)
+    env.filters["c17see"] = rec.see
+    env.filters["c17cap"] = rec.cap
+    env.tests["c17seen"] = rec.seen
+    env.globals["ctxfn"] = ctxfn
+    return env
+
+
+def prime_plain(cfg, src, kind, A, extra, compiled=None):
+    data, objs = build_data(kind, A, extra)
+    env = make_plain_env(cfg)
+    res = sbx.render_code(env, compiled or sbx.compile_src(env, src), data)
+    dispose(objs)
+    return res
+
+
+def history_shard(arg):
+    """Same route x name x object product, but an UNSANDBOXED environment renders the very same template in the same
+    process first (trusted application templates and untrusted ones share a process).  These shards run in a worker
+    pool of their own, before everything else, so that the trusted environment is always the first user."""
+    cfg, route_ids, kinds = arg
+    core.import_all_jinja()
+    warnings.simplefilter("ignore", RuntimeWarning)
+    p = core.Part()
+    routes = {r[0]: r for r in data_routes()}
+    for rid in route_ids:
+        _, fn, is_fmt, _value = routes[rid]
+
+        def build(A):
+            t = fn(A)
+            return t if isinstance(t, tuple) else (t, None)
+
+        csrc, cextra = build(MISSING_NAME)
+        ccomp = compile_cfg(cfg, csrc)
+        pcomp_ctl = sbx.compile_src(make_plain_env(cfg), csrc)
+        for kind in kinds:
+            prime_plain(cfg, csrc, kind, MISSING_NAME, cextra, pcomp_ctl)
+        for A in NAMES:
+            src, extra = build(A)
+            comp = compile_cfg(cfg, src)
+            pcomp = sbx.compile_src(make_plain_env(cfg), src)
+            for kind in kinds:
+                p.evals += 1
+                primed = prime_plain(cfg, src, kind, A, extra, pcomp)
+                data, objs = build_data(kind, A, extra)
+                Fs = forbidden_values(objs, A)
+                res, rec, touched, env = run_once(cfg, src, data, comp)
+                dispose(objs)
+                ctl_res = None
+                if Fs:
+                    cdata, cobjs = build_data(kind, MISSING_NAME, cextra)
+                    ctl_res = run_once(cfg, csrc, cdata, ccomp)[0]
+                    dispose(cobjs)
+                sig = judge(p, cfg, "after-unsandboxed/" + rid, is_fmt, src, kind, A, extra, Fs, res, rec, touched, ctl_res,
+                            script=("from checks import c17\n"
+                                    f"print('unsandboxed first:', c17.prime_plain({cfg!r}, {src!r}, {kind!r}, {A!r}, {extra!r}))\n"))
+                if Fs:
+                    p.count("nontrivial")
+                    p.sig(("hist", rid.split("-")[0], kind, A, sig, primed[0]))
     return p
 
 
@@ -1092,7 +1176,8 @@ def chunks(xs, n):
 
 def dispatch(arg):
     kind, payload = arg
-    return {"data": data_shard, "rt": rt_shard, "grammar": grammar_shard, "from": from_shard}[kind](payload)
+    return {"data": data_shard, "rt": rt_shard, "grammar": grammar_shard, "from": from_shard,
+            "history": history_shard}[kind](payload)
 
 
 def run(ctx: core.Ctx):
@@ -1114,6 +1199,10 @@ def run(ctx: core.Ctx):
     bids = [b[0] for b in runtime_bases()]
     n = sum(1 for _ in grammar_programs())
     step = 600
+    hkinds = HISTORY_KINDS if ctx.quick else HISTORY_KINDS_THOROUGH
+    ctx.pmap(dispatch, [("history", (cfg, c, hkinds))
+                        for cfg in (["sync", "async"] if ctx.quick else ["sync", "async", "sync-strict", "async-esc"])
+                        for c in chunks(rids, 8)])
     imm = IMMUTABLE_QUICK if ctx.quick else [c for c in CONFIGS if "immutable" in c]
     cfgs = [c for c in cfgs if "immutable" not in c]
     plain_kinds = KINDS + (["listsub", "dictsub"] if ctx.quick else CONTAINER_KINDS)
@@ -1128,7 +1217,7 @@ def run(ctx: core.Ctx):
     shards += [("grammar", (asy, lo, lo + step)) for asy in (False, True) for lo in range(0, n, step)]
     ctx.pmap(dispatch, shards)
     ctx.cov["bounds"] = {
-        "configs": cfgs, "immutable_configs": imm, "immutable_runtime_bases": container_bases, "kinds_plain_configs": plain_kinds, "container_kinds": CONTAINER_KINDS, "data_routes": len(rids), "names": len(NAMES), "object_kinds": len(KINDS),
+        "configs": cfgs, "history_kinds": hkinds, "immutable_configs": imm, "immutable_runtime_bases": container_bases, "kinds_plain_configs": plain_kinds, "container_kinds": CONTAINER_KINDS, "data_routes": len(rids), "names": len(NAMES), "object_kinds": len(KINDS),
         "from_import_forms": len(FROM_FORMS), "from_import_names": len(FROM_NAMES), "runtime_bases": len(bids), "runtime_routes": len(RT_ROUTES), "grammar_programs_per_mode": n,
     }
     unknown = {k: v for k, v in ctx.counters.items() if k.startswith("struct_unknown_name:")}
